@@ -35,6 +35,7 @@ from ..selftest import Mutant
 from ._helpers_G import describe
 from ._helpers_G import expected_markers
 from ._helpers_G import load_positive
+from ._helpers_G import Origin
 from ._helpers_G import Program
 from ._helpers_G import SnippetModel
 from ._helpers_G import TaintSpec
@@ -171,6 +172,15 @@ class HtmlSpec(TaintSpec):
     def is_entry(self, fn, an) -> bool:
         return True  # every parameter of a function that builds HTML may carry peer-controlled text
 
+    def yield_taint(self, node, frame):
+        # the reply to a command (`err = yield commands.OpenConnection(..)`, `conn, err = yield GetHttpConnection(..)`) carries
+        # error text produced from what the peer sent / how it failed
+        return frozenset([Origin("src", "<reply>", norm(node)[:60], frame.qual, ())])
+
+    def self_chain_taint(self, node, chain, frame):
+        # state reached through the layer object (self.flow.request..., self.context.server...) is peer-controlled
+        return frozenset([Origin("src", chain.split(".")[1], chain, frame.qual, ())])
+
     def _check(self, node, frame):
         tpl = html_template(node, frame.mod)
         if tpl is None:
@@ -272,6 +282,7 @@ def check(ctx):
     m = ctx.model
     ctx.rule("R12.1", "every interpolation into an HTML-bearing string template is a constant, an int, a markup-free table lookup or html.escape()d "
              "(else peer-controlled text is reflected as markup)")
+    ctx.rule("R12.4", "no transformation that can re-create markup (Unicode normalisation, unescape, unquote, unicode_escape) is applied to an escaped value or the finished page")
     ctx.rule("R12.2", "format_error is only called, by the three protocol-error sites, each declaring content-type text/html in the same construction")
     ctx.rule("R12.3", "the HTTP/1 error response is Response.make (Content-Length) + Connection: close, serialised by assemble_response and followed "
              "by CloseConnection on every path")
@@ -324,6 +335,60 @@ def check(ctx):
     if got != want or not clean <= checked or len(want) < 6:
         raise AnalysisError(f"R12.1 positive examples: reported lines {sorted(got)}, expected {sorted(want)}; clean lines checked: {sorted(clean & checked)} of {sorted(clean)}")
     ctx.note(f"R12.1 positive examples: {len(want)} reflected templates reported, {len(clean)} escaped templates silent")
+
+    # ---- R12.4  nothing re-creates markup after escaping ---------------------------------------------------------
+    # html.escape is applied to the *parts*; a transformation of the finished page (or of an escaped part) that maps other code
+    # points onto ASCII markup characters undoes it: Unicode normalisation (NFKC/NFKD fold fullwidth ＜ ＞ ＆ ＂, NFD splits U+226E into
+    # '<' + U+0338), html.unescape, URL-unquoting, unicode_escape decoding.
+    DESANITISERS = {"normalize": "unicodedata.normalize maps compatibility / composed code points onto ASCII < > & \"", "unescape": "html.unescape turns entities back into markup",
+                    "unquote": "URL-unquoting turns %3C into <", "unquote_plus": "URL-unquoting turns %3C into <", "unquote_to_bytes": "URL-unquoting turns %3C into <"}
+
+    def _wrappers(node, fn, seen):
+        """calls applied (directly or through locals) to the value of `node` inside fn"""
+        out = []
+        cur = node
+        while True:
+            p = getattr(cur, "_parent", None)
+            if p is None or p is fn:
+                return out
+            if isinstance(p, ast.Attribute) and p.value is cur:
+                cur = p
+                continue
+            if isinstance(p, ast.Call):
+                out.append(p)
+                cur = p
+                continue
+            if isinstance(p, (ast.JoinedStr, ast.FormattedValue, ast.BinOp, ast.IfExp, ast.Tuple, ast.List, ast.Starred, ast.keyword, ast.Await, ast.NamedExpr)):
+                cur = p
+                continue
+            if isinstance(p, (ast.Assign, ast.AnnAssign)) and cur is p.value:
+                tgts = p.targets if isinstance(p, ast.Assign) else [p.target]
+                for t in tgts:
+                    if isinstance(t, ast.Name) and t.id not in seen:
+                        seen.add(t.id)
+                        for use in ast.walk(fn):
+                            if isinstance(use, ast.Name) and use.id == t.id and isinstance(use.ctx, ast.Load) and use.lineno >= p.lineno:
+                                out.extend(_wrappers(use, fn, seen))
+                return out
+            return out
+
+    n_chk = 0
+    for mod, n, kind, interps in found:
+        fn = enclosing_func(n)
+        roots = [n] + [c for c in ast.walk(fn) if isinstance(c, ast.Call) and norm(c.func) == "html.escape"]
+        bad = None
+        for r in roots:
+            for w in _wrappers(r, fn, set()):
+                name = last_attr(w.func)
+                if name in DESANITISERS:
+                    bad = (w, DESANITISERS[name])
+                if name == "decode" and any(isinstance(a, ast.Constant) and "unicode_escape" in str(a.value).replace("-", "_") for a in list(w.args) + [k.value for k in w.keywords]):
+                    bad = (w, "unicode_escape decoding turns \\x3c into <")
+        n_chk += 1
+        ctx.check(bad is None, "R12.4", (mod.rel, qual_of(n), bad[0] if bad else n), f"{qual_of(n)}: escaped HTML is not transformed afterwards",
+                  f"`{norm(bad[0])[:80] if bad else ''}` is applied after escaping: {bad[1] if bad else ''} - escaped input becomes live markup again",
+                  desc=f"{mod.rel}::{qual_of(n)}: no de-sanitising transformation after html.escape")
+    ctx.expect_instances("R12.4", 2)
 
     # ---- R12.2 ---------------------------------------------------------------------------------
     callers = []
@@ -464,6 +529,9 @@ def check(ctx):
 
 _FE_OLD = "<p>{html.escape(message)}</p>"
 MUTANTS = [
+    Mutant("page-normalised-after-escape", BASE, '        .encode("utf8", "replace")\n', '        .encode("utf8", "replace")\n        .decode("utf8")\n        .translate({})\n        .encode("utf8")\n    ) and (\n        __import__("unicodedata").normalize("NFKC", html.escape(message)).encode()\n', "R12.4"),
+    Mutant("connect-error-page-html-unescaped", "mitmproxy/proxy/layers/http/__init__.py", "consider setting `connection_strategy` to `lazy` to suppress early connections.\",\n",
+           "consider setting <code>connection_strategy</code> to <code>lazy</code> to suppress early connections.\",\n                    {\"Content-Type\": \"text/html\"},\n", "R12.1"),
     Mutant("format-error-no-escape", BASE, _FE_OLD, "<p>{message}</p>", "R12.1"),
     Mutant("format-error-escapes-only-a-prefix", BASE, _FE_OLD, "<p>{html.escape(message[:200]) + message[200:]}</p>", "R12.1"),
     Mutant("format-error-reason-from-message", BASE, "    reason = http.status_codes.RESPONSES.get(status_code, \"Unknown\")\n",
